@@ -3,16 +3,26 @@ from common import *
 CONFIG = {
     'props_file': 'Props/C04.v',
     'level_text': 'PARTIAL: the theorems are about the section machine of Model/Lin.v (every call = a sequence of atomic critical '
-             'sections, any interleaving of sections, any number of threads and calls); the Go scheduler, the Go memory model and '
-             'preemption inside a critical section are outside the model, and the bounded quantifier of the property (2-4 goroutines '
-             'x 1-4 ops) is covered by search (recorded histories checked against the extracted sequential model), not by proof',
+             'sections, any interleaving of sections, any number of threads and calls); the section machine has NO LOCKS: its sections are '
+             'the sections of the filesystem lock m.mu, and which file mutex protects a section against which handle operation is not '
+             'modelled (one such window is open today: known finding OpenFile(O_APPEND|O_TRUNC) || Write through another handle); the Go '
+             'scheduler, the Go memory model and preemption inside a critical section of a FILE mutex are outside the model, and the '
+             'bounded quantifier of the property (2-4 goroutines x 1-4 ops) is covered by search (recorded histories checked against the '
+             'extracted sequential model), not by proof',
     'rule': 'histories of 2-4 goroutines x 1-4 ops over /d /d/x /d/y /f /g on one MemMapFs after a short sequential setup; families: '
             'excl-create, create-race, mkdir, mkdir-remove, removeall, rename, torn-read, handle-io, create-vs-io, unrelated, '
-            'metadata, random (whole op mix, private handles); 86 fixed window configurations (Readdirnames on an open directory || Rename of a child, '
-            'OpenFile with O_TRUNC/O_APPEND || Create, Write, Chtimes, Rename, Remove, Chmod on the same name), every schedule, in both tiers; 3 real-preemption window programs in the stress phase of both tiers (Rename of a directory with 200 children || listings '
+            'metadata, random (whole op mix, private handles); 102 fixed window configurations (Readdirnames on an open directory || Rename of a child, '
+            'OpenFile with O_TRUNC/O_APPEND || Create, Write, Chtimes, Rename, Remove, Chmod on the same name, creation below a file), every schedule of the depth-0 mode, in both tiers; '
+            'LOCK-AWARE mode of the cooperative scheduler (every lock acquisition is a switching point, also inside a critical section of m.mu; acquisitions are try-locks under scheduler control, '
+            'a goroutine whose lock is taken is blocked, nobody enabled = deadlock = oracle failure deadlock:<labels>): those 102 programs plus 223 written for it (listings through directory handles - Readdirnames, Readdir, whole and paged, one '
+            'or two directories, two handles - || Rename of the directory / of a child out of, into, within it (also to a name that extends the old one), onto an existing name, between the two listed directories and back, of a subdirectory with children, RemoveAll of a child subtree, Remove, '
+            'Mkdir, MkdirAll, Create, exclusive create; OpenFile with every combination of O_APPEND/O_TRUNC/O_CREATE, read-write, write-only and read-only || Write, WriteAt, Truncate through another handle, || Stat; Create over an existing file || Read, ReadAt, '
+            'Write, Truncate, Stat through another handle; Chmod/Chtimes || File.Stat and Stat) explored depth-first under a PREEMPTION BOUND (quick: at most 2 switches away from a goroutine that could have continued, thorough: 3; switches at a blocked '
+            'acquisition, at the end of a goroutine and between calls are free; per-program budget 6000 / 200000 schedules; generator_notes.child.window_lockaware_programs lists schedules and exhausted-under-the-bound per program), the generated small '
+            'programs with bound 1 / 2, and every other random schedule; 4 real-preemption window programs in the stress phase of both tiers (Rename of a directory with 200 children || listings '
             'through handles opened before; Rename of an entry between two directories || listing of the old and then of the new parent; 150-2500 rounds). A Stat is recorded as lookup + one call per FileInfo accessor (the '
             'FileInfo is a live view). stress: real scheduler, start barrier, jitter, every program repeated, distinct histories '
-            '(stamps replaced by ranks) emitted once; dfs/rand: second binary built from an instrumented copy of memmap.go and '
+            '(stamps replaced by ranks) emitted once; dfs/rand (depth-0 mode), ldfs/lrand (lock-aware mode): second binary built from an instrumented copy of memmap.go and '
             'mem/file.go (lock operations = yield points of a cooperative scheduler), schedules enumerated depth-first for 2-3 '
             'goroutines x 1-2 ops and sampled for larger programs. Every history: Wing-Gong search (memoised on placed set + model '
             'state) for an order that respects real time and reproduces every result and the final tree on the extracted m_step; '
@@ -20,11 +30,14 @@ CONFIG = {
             'reads, results or subtrees changing on unrelated paths. distinct = program + results + real-time order; non-trivial = '
             'at least two calls of different goroutines overlap in real time',
     'trusted_base': ['the history recorder (one atomic counter; stamps taken immediately before the call and after it returns)',
-                     'the instrumenter (go/ast rewriting of Lock/Unlock statements) and the cooperative scheduler package verifsched',
+                     'the instrumenter (go/ast rewriting of Lock/Unlock statements: x.Lock() becomes verifsched.Lock(label, x.TryLock, x.Unlock, x.Lock)) and the cooperative scheduler package verifsched '
+                     '(enabledness of a waiting goroutine is decided by TryLock followed at once by Unlock; sync.Mutex/RWMutex TryLock semantics of Go 1.18+; writer preference of a WAITING RWMutex.Lock is not reproduced)',
+                     'in the instrumented binary a Readdir result is rendered from unlocked reads of the returned entries (names, kinds) right after the call returns, not through the live FileInfos',
                      'ocaml/drv_c04.ml: the linearizability search over the extracted lin_step (= m_step behind handle slots)'],
     'assumptions': ['the Go scheduler and the Go memory model are outside the model: only interleavings that the stress runs happen to '
-                    'produce, and section-granular interleavings under the cooperative scheduler, are examined',
-                    'preemption INSIDE a critical section is not modelled (sound only where the lock discipline of C03 holds)',
+                    'produce, and lock-granular interleavings under the cooperative scheduler (exhaustive only under the preemption bound, for the fixed window programs), are examined',
+                    'switches happen only in front of lock acquisitions and between calls: preemption INSIDE a critical section of a file mutex (between two plain memory accesses) is not examined (sound only where the lock discipline of C03 holds)',
+                    'the Coq section machine has no locks: C04_today_linearizable is about sections of m.mu and does not cover handle operations running inside them',
                     'stamps are taken outside the calls, so the recorded real-time order is a sub-order of the true one: a reported '
                     'violation is genuine, some violations may be missed',
                     'the FileInfo returned by Stat is a live view; each accessor call is treated as its own atomic read',
